@@ -488,8 +488,8 @@ pub fn execute(plan: &Plan, trace: bool) -> Exec {
         Some(Err((c, d))) => ex.violation(&c, d),
         Some(Ok((problems, probes, cancels))) => {
             ex.probe("cuts_with_driver_loop_iteration_in_between", probes.0);
-            ex.probe("cuts", probes.1);
-            ex.probe("accepts_cancelled", cancels);
+            ex.fault("delivery_cut_inside_frame", probes.1);
+            ex.fault("app_calls_cancelled_and_reissued", cancels);
             ex.nontrivial = probes.1 > 0;
             if let Some((c, d)) = problems.into_iter().next() {
                 ex.violation(&c, d);
